@@ -110,6 +110,12 @@ class World:
             g = Graph([gn], name="outer")
             for j in range(wrap.get("plain", 0)):
                 g = Graph([g.as_node(name=f"lvl{j}")], name=f"outer{j}")
+            if wrap.get("rebind"):
+                # the outer graph as user code often obtains it: DERIVED through bind()/unbind() of one of its own inputs (a net no-op) —
+                # what the nested graph binds inside stays the nested graph's business
+                free = [k for k in g.inputs.required] or [k for k in g.inputs.optional]
+                if free:
+                    g = g.bind(**{free[0]: 0}).unbind(free[0])
         self.graphs[gkey] = g
         return g
 
@@ -156,13 +162,24 @@ class C18(Prop):
                         return True
         return False
 
+    @staticmethod
+    def _rebound_mapped_bound(case: dict) -> bool:
+        """A cloning map whose inner graph BINDS an object, run through an outer graph derived by bind()/unbind()."""
+        for sp in case["specs"]:
+            w = sp.get("wrap", {})
+            if w.get("mapOver") and w.get("clone") is True and w.get("rebind") and any("bound" in s_ for nd in sp["nodes"] for s_ in nd["srcs"]):
+                return True
+        return False
+
     def cases(self, rng: random.Random, tier: str) -> Iterable[dict]:
-        forced_single = 3        # whatever the seed: maps over exactly one item with a cloned broadcast value that a node mutates
+        # whatever the seed: maps over exactly one item with a cloned broadcast value that a node mutates; cloning maps over an inner
+        # binding behind an outer graph that was derived through bind()/unbind()
+        want = [self._single_cloned_mutated] * 3 + [self._rebound_mapped_bound] * 3
         for c in self._cases(rng, tier):
-            if forced_single:
-                if not self._single_cloned_mutated(c):
+            if want:
+                if not want[0](c):
                     continue
-                forced_single -= 1
+                want.pop(0)
             yield c
 
     def _cases(self, rng: random.Random, tier: str) -> Iterable[dict]:
@@ -226,6 +243,8 @@ class C18(Prop):
                         shape["wrap"]["single"] = True      # a map over exactly one item: cloning is about the CALLER's object, not about siblings
                 elif wrap_kind == "mapped":
                     shape["wrap"] = {}
+                if "wrap" in shape and rng.random() < 0.35:
+                    shape["wrap"]["rebind"] = True
                 if "wrap" in shape and rng.random() < 0.4:
                     # further PLAIN nesting levels around the (mapped) wrapper: transparent, every level leaves the inner graph's own
                     # defaults and bindings to the inner run
